@@ -8,14 +8,16 @@ type ExploreOpts struct {
 	// FreeBound > 0: at most this many non-default choices among the cost-free ones (switches at
 	// blocking points, ready select arms); 0 = unlimited.
 	FreeBound int
-	MaxExecs  int64     // 0 = unlimited
-	Deadline  time.Time // zero = none
-	Run       Opts      // per-execution options
-	Shard     int       // explore only subtrees with index%Shards == Shard (when Shards > 1)
-	Shards    int
-	SplitAt   int                       // recursion depth at which subtrees are dealt to shards (default 2)
-	Stop      func() bool               // polled between executions
-	Exec      func(prefix []int) *Sched // optional: runs one execution (default Run(prefix, o.Run, body))
+	// DefaultOnly runs just the default schedule (no alternatives at all).
+	DefaultOnly bool
+	MaxExecs    int64     // 0 = unlimited
+	Deadline    time.Time // zero = none
+	Run         Opts      // per-execution options
+	Shard       int       // explore only subtrees with index%Shards == Shard (when Shards > 1)
+	Shards      int
+	SplitAt     int                       // recursion depth at which subtrees are dealt to shards (default 2)
+	Stop        func() bool               // polled between executions
+	Exec        func(prefix []int) *Sched // optional: runs one execution (default Run(prefix, o.Run, body))
 }
 
 // ExploreStats is what Explore covered.
@@ -77,6 +79,9 @@ func Explore(o ExploreOpts, body func(), visit func(x *Sched) bool) ExploreStats
 				stop = true
 				return
 			}
+		}
+		if o.DefaultOnly {
+			return
 		}
 		cost, free := 0, 0
 		ds := x.Decisions
